@@ -184,7 +184,8 @@ def run(env: Env) -> Outcome:
     suite.direct_corr(env, out, env.budget(1500, 30000))
     suite.live_runs(env, out, env.budget(50, 1000), [monitors.mon_c10], extra_specs=[c for c in corpus if "spec" in c])
     suite.live_runs(env, out, env.budget(250, 5000), [monitors.mon_c10], gen_kwargs={"family": "wait"})
-    # waiting steps with a retry policy that fail before / after their wait (the replay continues the retried invocation)
-    suite.live_runs(env, out, env.budget(80, 1600), [monitors.mon_c10], gen_kwargs={"family": "wait_retry"})
     _resume_runs(env, out, env.budget(120, 2400), corpus)
+    # waiting steps with a retry policy that fail before / after their wait (the replay continues the retried invocation);
+    # last, so that the streams above are what they were before this family existed
+    suite.live_runs(env, out, env.budget(80, 1600), [monitors.mon_c10], gen_kwargs={"family": "wait_retry"})
     return out
